@@ -303,7 +303,7 @@ func FindEntity(u *fedlab.Universe, rep *fedlab.J) *fedlab.Entity {
 // root fields on the Query entity.  Fields that are members of the representation itself (keys,
 // required inputs) are not deliverables.
 func Deliverables(cfg *fedlab.Config, u *fedlab.Universe, req *fedlab.Request, only int, firstGroupOnly bool) ([]Pair, error) {
-	return DeliverablesWhere(cfg, u, req, func(group, i int, rep *fedlab.J, e *fedlab.Entity) bool {
+	return DeliverablesWhere(cfg, u, req, func(group int, _ string, i int, rep *fedlab.J, e *fedlab.Entity) bool {
 		if firstGroupOnly && group > 0 {
 			return false
 		}
@@ -316,8 +316,8 @@ func Deliverables(cfg *fedlab.Config, u *fedlab.Universe, req *fedlab.Request, o
 
 // DeliverablesWhere: as Deliverables, for the representations pred selects (group counts the
 // non-empty representation lists of the request; a root request has no representations and is
-// taken whole when pred(0, -1, nil, nil) holds).
-func DeliverablesWhere(cfg *fedlab.Config, u *fedlab.Universe, req *fedlab.Request, pred func(group, i int, rep *fedlab.J, e *fedlab.Entity) bool) ([]Pair, error) {
+// taken whole when pred(0, "", -1, nil, nil) holds; alias is the response key of the _entities field).
+func DeliverablesWhere(cfg *fedlab.Config, u *fedlab.Universe, req *fedlab.Request, pred func(group int, alias string, i int, rep *fedlab.J, e *fedlab.Entity) bool) ([]Pair, error) {
 	groups, err := ParseRequest(req.Query)
 	if err != nil {
 		return nil, err
@@ -326,7 +326,7 @@ func DeliverablesWhere(cfg *fedlab.Config, u *fedlab.Universe, req *fedlab.Reque
 	group := 0
 	for _, g := range groups {
 		if g.Alias == "" && g.RepsVar == "" {
-			if pred(0, -1, nil, nil) {
+			if pred(0, "", -1, nil, nil) {
 				for _, f := range g.Fields[""] {
 					out = append(out, Pair{cfg.Super.Query, "", f})
 				}
@@ -344,7 +344,7 @@ func DeliverablesWhere(cfg *fedlab.Config, u *fedlab.Universe, req *fedlab.Reque
 		}
 		for i, rep := range reps {
 			e := FindEntity(u, rep)
-			if e == nil || !pred(group, i, rep, e) {
+			if e == nil || !pred(group, g.Alias, i, rep, e) {
 				continue
 			}
 			for tc, fields := range g.Fields {
@@ -384,7 +384,7 @@ func CloseOverRequires(cfg *fedlab.Config, u *fedlab.Universe, base []*fedlab.Re
 	for changed := true; changed; {
 		changed = false
 		for _, r := range base {
-			ps, err := DeliverablesWhere(cfg, u, r, func(_, i int, rep *fedlab.J, e *fedlab.Entity) bool {
+			ps, err := DeliverablesWhere(cfg, u, r, func(_ int, _ string, i int, rep *fedlab.J, e *fedlab.Entity) bool {
 				if rep == nil || e == nil {
 					return false
 				}
